@@ -642,10 +642,6 @@ func (vfs *MemFS) OpenFile(name string, flag int, perm fs.FileMode) (avfs.File, 
 			c.truncate(0)
 		}
 
-		if om&avfs.OpenAppend != 0 {
-			at = c.size()
-		}
-
 	case *dirNode:
 		c.mu.Lock()
 		defer c.mu.Unlock()
